@@ -6,7 +6,10 @@
    recorder, tape and store): the specification of independence IS that the
    per-iterator observations do not depend on the schedule (invariant
    SoloAgree: equal to the solo run), so the expected per-iterator traces emitted
-   here are what every interleaved -- and every concurrent -- real run must show. *)
+   here are what every interleaved -- and every concurrent -- real run must show.
+   The concurrent replay adds a bystander: one more goroutine consumes a generator of another ELEMENT TYPE
+   (string; hand-written, fixed solo sequence) at the same time -- independence also holds across
+   instantiations of the generic runtime -- and runs first in every job, before anything is warmed up. *)
 EXTENDS SrcSyntax, Json
 
 CONSTANTS K, M, Budget
